@@ -80,6 +80,7 @@ type VC struct {
 	exitIdx   []int
 	exitPos   []string
 	inlineBudget int
+	heapSorts map[string]Sort
 	skipAssume bool
 	specCalls int
 	binderDepth int // >0 while evaluating the body of a quantifier in a clause
@@ -176,6 +177,11 @@ func (vc *VC) oblige(kind, fn, detail string, pos token.Position, goal Term, cla
 	}
 	o := &Oblig{Name: name, Kind: kind, Fn: fn, Detail: detail, Pos: pos, itemIdx: len(vc.items), pc: vc.reach, goal: goal, Clause: clause, Inlined: inlined}
 	vc.obligs = append(vc.obligs, o)
+	if strings.Contains(goal.S, "(forall ") || strings.Contains(goal.S, "(exists ") {
+		// quantified goals are not turned into assumptions for later obligations (sound: fewer
+		// assumptions; they slow the solvers down and are rarely needed downstream)
+		return o
+	}
 	if vc.skipAssume {
 		// Houdini candidates may be false: their checks must not help (or vacuously discharge) later checks
 		return o
